@@ -17,7 +17,10 @@
 import sys, types, logging
 
 sys.path.insert(0, sys.argv[1])
+sys.path.insert(0, __file__.rsplit("/", 1)[0])
 sys.dont_write_bytecode = True
+import appinit
+APPINIT = appinit.extract(sys.argv[1])
 
 import udp_link, clck_gen, ctrl_if, fake_pm, fake_trx, threading
 from fake_trx import Application, FakeTRX
@@ -99,10 +102,10 @@ def build(extra):
     app.trx_list = TRXList()
     app.clck_gen = CLCKGen([], sched_rr_prio=None)
     app.clck_gen.clck_handler = app.clck_handler
-    app.fake_pm = FakePM(-120, -105, -75, -50)
+    app.fake_pm = FakePM(*APPINIT["fake_pm_args"])
     app.fake_pm.trx_list = app.trx_list
-    app.append_trx(app.argv.bts_addr, app.argv.bts_base_port, name="BTS")
-    app.append_trx(app.argv.bb_addr, app.argv.bb_base_port, name="MS", child_mgt=False)
+    app.append_trx(app.argv.bts_addr, app.argv.bts_base_port, **APPINIT["append_trx_kwargs"][0])
+    app.append_trx(app.argv.bb_addr, app.argv.bb_base_port, **APPINIT["append_trx_kwargs"][1])
     for (addr, port, idx) in extra:
         app.append_child_trx(ADDR[addr], port, name=None, child_idx=idx)
     app.burst_fwd = BurstForwarder(app.trx_list.trx_list)
